@@ -536,7 +536,8 @@ def _harness_reads_missing_internal(e):
         return False
     obj = getattr(e, "obj", None)
     mod = getattr(obj, "__name__", None) if isinstance(obj, types.ModuleType) else getattr(type(obj), "__module__", "")
-    return bool(mod) and str(mod).split(".")[0] == "inference"
+    # an attribute of a package object the harness relied on, or a mistake inside the harness itself
+    return bool(mod) and str(mod).split(".")[0] in ("inference", "harness", "symnp")
 
 
 def _run_concrete(u, values, uf_tables, family_index=0, fd_scale=1.0):
@@ -738,6 +739,9 @@ def run_unit(u, tier="quick", seed=0, query_timeout_ms=None, log=print):
                     pass
             if st == "unknown":
                 out["inconclusive"].append(f"solver unknown/timeout on {o.name} after {o.time:.1f}s")
+            elif st == "sat" and len(out["violations"]) >= 3:
+                # the unit already has reproduced counterexamples: further sat answers are counted, not replayed
+                out["sat_not_replayed"] = out.get("sat_not_replayed", 0) + 1
             elif st == "sat":
                 ok, vals, detail = _try_replay(u, ctx, h, o.name, o.hyps, o.neg, o.robust, qto, kind=o.kind)
                 if ok:
@@ -748,9 +752,16 @@ def run_unit(u, tier="quick", seed=0, query_timeout_ms=None, log=print):
     out["distinct"] = len(distinct)
     if out["reachable_paths"] + out["reachable_paths_noaxioms"] == 0 or out["obligations"] == 0:
         out["inconclusive"].append("vacuous unit: no reachable path with an obligation")
-    if not opts.get("_hunt") and not out["violations"] and any("Realification" in t for t in out["inconclusive"]):
-        # hunt mode: the exhaustive run stopped at a float() of a symbolic value.  Re-run with concolic concretisation of
-        # exactly those values: nothing is proved that way (the unit stays inconclusive), but a counterexample found and
+    completed = sum(1 for pr in results if pr.abort is None and pr.error is None)
+    allowed = out["aborted"].get("allowed_exception", 0)
+    if results and completed + allowed == 0 and not any("vacuous unit" in t for t in out["inconclusive"]):
+        out["inconclusive"].append("no path ran the unit to its end (every path was cut short by a bound or an abort): nothing is claimed")
+    if Ctx.truncated_forks and opts.get("_hunt"):
+        out["inconclusive"].append(f"{Ctx.truncated_forks} int() fork(s) over an unbounded value explored only partially")
+    if not opts.get("_hunt") and not out["violations"] and any(("Realification" in t) or ("no path ran the unit to its end" in t) for t in out["inconclusive"]):
+        # hunt mode: the exhaustive run stopped at a float() of a symbolic value, or no path reached the end of the unit
+        # (e.g. an int() of an unbounded value).  Re-run with concolic concretisation of exactly those values (float():
+        # one feasible double; int() of an unbounded value: two small alternatives): nothing is proved that way (the unit stays inconclusive), but a counterexample found and
         # replayed on such a path is an ordinary violation.
         u2 = Unit(u.prop, u.fn, u.params, u.tier, dict(opts, _hunt=True, concretise=True, max_paths=min(opts.get("max_paths", 3000), 400)))
         try:
